@@ -54,6 +54,19 @@ def plain(rng):
                                  T, np.array(res.py_get_result()), idx, rate, dt)
                 if bad:
                     return bad
+    # a rule scheduled for a time ON the grid (an exact element of it, decimal step): earlier rows untouched, later rows governed
+    for it in range(6):
+        T = np.arange(0, 2.0, 0.1)
+        k = rng.randint(2, len(T) - 3)
+        M = Model(species=['A', 'Q'], reactions=[([], ['A'], 'massaction', {'k': rng.uniform(0.5, 4)})], initial_condition_dict={'A': 0, 'Q': 0})
+        M.create_rule('assignment', {'equation': 'Q = 7'}, repr(float(T[k])))
+        idx = M.get_species2index()
+        for mode in (dict(stochastic=True), dict(stochastic=True, safe=True), dict(stochastic=True, delay=True)):
+            py_seed_random(rng.randint(1, 10 ** 6))
+            Q = np.array(py_simulate_model(T, Model=M, return_dataframe=False, **mode).py_get_result())[:, idx['Q']]
+            if (Q[:k] != 0).any() or (Q[k + 1:] != 7).any():
+                return dict(reproduced=True, call='py_simulate_model(np.arange(0, 2, 0.1), rule Q = 7 scheduled at the grid time %r, %r)' % (float(T[k]), mode),
+                            what='rows before / after the scheduled time', observed=Q.tolist(), expected='0 before row %d, 7 after it' % k)
     # deterministic mode: the repeated assignment rule holds on every reported row
     for it in range(4):
         M, rate = build(Model, rng, True)
